@@ -2,6 +2,7 @@ package raft
 
 import (
 	"bytes"
+	"context"
 	"io"
 	"net"
 	"time"
@@ -1179,5 +1180,79 @@ func VH_C10_cluster3_leader_restart() {
 	N.stateLoop()
 	vReach("closed")
 	vAssert(step >= 4, "script-completed")
+	vReach("end")
+}
+
+// vListen: a channel listener for node r and the dial function that reaches it (for running the real Raft.Serve).
+func vListen() (*vChanListener, dialFn) {
+	lr := vNewListener()
+	return lr, func(network, address string, timeout time.Duration) (net.Conn, error) {
+		if lr.closed {
+			return nil, vIOError{"dial: connection refused"}
+		}
+		a, b := vPipe()
+		lr.incoming <- b
+		return a, nil
+	}
+}
+
+//verif:check C15,C20,C07,C04 sched=coop maxsteps=1500000 onunwind=violation stubs=rt,timers,valuefile,abslog,snapfs,lockfs,servefs onblock=violation reach=serving,second-instance-refused,shutdown-requested,served-out,end desc="the real Raft.Serve on two real nodes end to end (directory lock, FSM loop, accept loop, batching goroutine, state loop, deferred shutdown sequence): while the nodes serve, a second Serve on one of the directories is refused with ErrLockExists and disturbs nothing; the follower catches up and a client update submitted through FSMTasks commits; another update is still uncommitted... then Shutdown is requested on both: every Serve call returns ErrServerClosed, every submitted task has completed (the pending one with ErrServerClosed), no goroutine is left blocked in the shutdown sequence, and both directory locks are released" bounds="leader + follower (third voter down), follower log empty; 1 committed client update + 1 submitted at shutdown; round-robin goroutine schedule"
+func VH_C15_cluster2_serve_shutdown() {
+	cfgE := vClusterConfig().encode()
+	cfgE.index, cfgE.term = 1, 1
+	e2 := &entry{index: 2, term: 1, typ: entryUpdate, data: vBytes("payload2", 1)}
+	e3 := &entry{index: 3, term: 2, typ: entryUpdate, data: vBytes("payload3", 1)}
+	L, la := vClusterNode(vDir, 1, []*entry{cfgE, e2, e3}, 3, 1, 2)
+	L.state, L.leader = Leader, 1
+	L.quorumWait = time.Hour
+	F, fa := vClusterNode(vDirF, 2, nil, 0, 0, 0)
+	lrL, _ := vListen()
+	lrF, dialF := vListen()
+	L.dialFn = func(network, address string, timeout time.Duration) (net.Conn, error) {
+		if address != vAddr(2) {
+			return nil, vIOError{"dial: connection refused"}
+		}
+		return dialF(network, address, timeout)
+	}
+	var errF, errSecond, errShutF, errShutL error
+	shut := 0
+	servedF := make(chan error, 1)
+	go func() { servedF <- F.Serve(lrF) }()
+	u1, u2 := UpdateFSM(vBytes("cmd1", 1)), UpdateFSM(vBytes("cmd2", 1))
+	step := 0
+	vSetIdleHook(func() {
+		switch step {
+		case 0:
+			vReach("serving")
+			vAssert(vLockHeld(vDir) && vLockHeld(vDirF), "S-both-directories-locked-while-serving")
+			vAssert(L.commitIndex == 4 && F.commitIndex == 4 && vLogsEqual(la, fa, 4), "S-follower-caught-up-under-the-real-serve")
+			// a second instance on the follower's directory
+			other := vMkRaftAt(vDirF, 2)
+			lr2, _ := vListen()
+			errSecond = other.Serve(lr2)
+			vAssert(errSecond == ErrLockExists, "S-second-instance-refused")
+			vAssert(vLockHeld(vDirF) && !F.isClosed(), "S-serving-instance-undisturbed")
+			vReach("second-instance-refused")
+			go func() { L.FSMTasks() <- u1 }()
+		case 1:
+			vAssert(isClosed(u1.Done()) && u1.Err() == nil && F.commitIndex == 5, "S-update-through-FSMTasks-commits")
+			// another update is on its way when the operator shuts both nodes down
+			go func() { L.FSMTasks() <- u2 }()
+			go func() { errShutF = F.Shutdown(context.Background()); shut++ }()
+			go func() { errShutL = L.Shutdown(context.Background()); shut++ }()
+			vReach("shutdown-requested")
+		}
+		step++
+	})
+	errL := L.Serve(lrL)
+	vReach("served-out")
+	vAssert(errL == ErrServerClosed, "S-serve-returns-server-closed")
+	errF = <-servedF // (a blocked shutdown sequence on the follower would be reported as a deadlock here)
+	vAssert(errF == ErrServerClosed, "S-follower-serve-returns-server-closed")
+	vAssert(isClosed(u2.Done()) && (u2.Err() == nil || u2.Err() == ErrServerClosed), "S-task-submitted-at-shutdown-completes")
+	vAssert(!vLockHeld(vDir) && !vLockHeld(vDirF), "S-locks-released-after-shutdown")
+	vAssert(isClosed(L.closed) && isClosed(F.closed), "S-closed-signalled")
+	vAssert(shut >= 1 && errShutF == nil && errShutL == nil, "S-shutdown-calls-return-nil")
+	vAssert(step >= 2, "script-completed")
 	vReach("end")
 }
